@@ -801,6 +801,12 @@ impl<'a> LiveEvents<'a> {
         self.seen_doc_end
     }
 
+    /// Verification hook: whether the shared I/O error cell currently holds an error.
+    #[cfg(serde_saphyr_verif)]
+    pub(crate) fn io_error_pending(&self) -> bool {
+        self.error.borrow().is_some()
+    }
+
     /// After a document's root value has been deserialized: error if the value stopped in the
     /// middle of its node (for example a fixed-arity tuple that left surplus elements behind), so
     /// that the remainder is not mistaken for further documents.
